@@ -775,7 +775,7 @@ func (x *Exec) execCopy(f *Frame, i *ssa.Call) {
 }
 
 func (x *Exec) szFacts(before, after, k Term, v *Term) {
-	if !x.b.funSeen["sz"] && !x.usesSz {
+	if !x.usesSz {
 		return
 	}
 	sb, sa := x.szTerm(before), x.szTerm(after)
